@@ -565,7 +565,8 @@ def run(ctx, explain=False):
     nsurf = sum(1 for t in heavy_traces if t["kind"] == "surf")
     ctx.exhaustive = not ctx.quick
     ctx.rule = ("chmpy.mc.marching_cubes on %d single-cube fields (%s), %d random multi-blob integer grids "
-                "(3..9 points per axis, integer spacings 1..4, both directions, 30%% with the exterior high), "
+                "(3..9 points per axis, integer spacings 1..4, both directions, 30%% with the exterior high) plus 5 "
+                "regression grids of finding C06-lewiner-membrane, "
                 "%d integer spheres individually and as one family for the volume clauses; %d surfaces from "
                 "surface.py / Molecule / Crystal wrappers at separations %s A plus their level-residual trends; "
                 "non-trivial = the mesh has at least one face" % (
